@@ -5,18 +5,23 @@
    close, and finally every handle is dropped.  Every call must return, data-path calls with an
    error that names the right scope and carries the peer's condition, and all engine tasks end. *)
 EXTENDS Integers, Sequences, TLC, Json
-CONSTANTS Side
+CONSTANTS Side, Only     \* Only: "all" | "burst" (just the scripts that have frames queued when the peer's close is read)
 
 Faults == {"eof", "reset", "partial", "close", "closeErr", "end", "endErr", "detachS", "detachSErr", "detachR", "silentEof"}
 \* cut: number of completed steps before the failure; pend: what is pending when it strikes
 Cuts == 0..6
-Pends == {"step", "none", "send", "recv", "close", "end", "detach"}   \* close / end / detach: the local teardown call crosses the failure on the wire
+Pends == {"step", "none", "send", "recv", "close", "end", "detach", "burst1", "burst2", "burst3", "burst5"}   \* close / end / detach: the local teardown call crosses the failure on the wire
+Bursts == {"burst1", "burst2", "burst3", "burst5"}
 VARIABLE z
 Init == z = [k |-> "start"]
 Applicable(c, f, p) ==
   /\ (f \in {"end", "endErr"} => c >= 2) /\ (f \in {"detachS", "detachSErr"} => c >= 3) /\ (f = "detachR" => c >= 4)
   /\ (p = "send" => c >= 3) /\ (p = "recv" => c >= 4) /\ (p = "step" => c <= 5)
   /\ (p = "close" => c >= 1) /\ (p = "end" => c >= 2) /\ (p = "detach" => c >= 3)
+  \* burstK: three pre-settled sends handed over back to back, K scheduler turns, then the peer's close: frames are still
+  \* queued inside the endpoint when the close is read
+  /\ (p \in Bursts => c \in {3, 4} /\ f \in {"close", "closeErr"})
+  /\ (Only = "burst" => p \in Bursts)
 Next == z.k = "start" /\ \E c \in Cuts, f \in Faults, p \in Pends : Applicable(c, f, p) /\ z' = [k |-> "case", c |-> c, f |-> f, p |-> p]
 Spec == Init /\ [][Next]_z
 
@@ -41,6 +46,8 @@ Pending(c, p) == CASE p = "step" -> Step(c + 1)[1]
                    [] p = "close" -> <<[e |-> "AClose", err |-> ""]>>
                    [] p = "end" -> <<[e |-> "AEnd", s |-> "s1"]>>
                    [] p = "detach" -> <<[e |-> "ADetach", l |-> "L1", closed |-> TRUE]>>
+                   [] p \in Bursts -> [i \in 1..3 |-> [e |-> "ASend", l |-> "L1", m |-> 20 + i, len |-> 20, batchable |-> TRUE, settled |-> TRUE, nosettle |-> TRUE]]
+                                      \o <<[e |-> "Yield", n |-> (CASE p = "burst1" -> 1 [] p = "burst2" -> 2 [] p = "burst3" -> 3 [] OTHER -> 5), nosettle |-> TRUE]>>
                    [] OTHER -> <<>>
 Fault(f) == CASE f = "eof" -> <<[e |-> "PEof", keep_read |-> TRUE]>>
               [] f = "silentEof" -> <<[e |-> "PEof", keep_read |-> FALSE]>>
